@@ -454,6 +454,35 @@ def truncation_cases(rng, points):
         cid += 1
 
 
+def big_frame(rng, valid_payload=True, embed=None):
+    """a frame of the maximum length (1000 bytes = 990 payload bytes) whose payload carries, near its tail,
+    header-shaped bytes: a complete small frame for us (a reader that rejected the big frame after its
+    header would resynchronise inside the payload and hand THAT out).  valid: a password response whose
+    text is ASCII (decodes, one data item); otherwise a regulator-data-schema response with garbage."""
+    # (for the decodable variant every byte must be ASCII: request kinds 48 / 64 are, their XOR checksum then is too)
+    inner = embed if embed is not None else rng.choice(
+        [fg.mk(CD_REQ, b"", rcpt=86, sender=ECOMAX), fg.mk(PV_REQ, b"", rcpt=86, sender=ECOMAX)]
+        + ([] if valid_payload else [fg.mk(PASSWORD, b"\x04evil", rcpt=86, sender=ECOMAX)]))
+    tail = bytes(rng.choice(b"abcxyz0189") for _ in range(rng.randint(0, 12)))
+    if valid_payload:
+        n_fill = 990 - 1 - len(inner) - len(tail)
+        body = b"\x04" + bytes(rng.choice(b"ABCDEFGHJKLMNPQRSTUVWXYZ23456789") for _ in range(n_fill)) + inner + tail
+        assert len(body) == 990 and all(b < 0x80 for b in body)
+        return F(PASSWORD, body)
+    n_fill = 990 - 2 - len(inner) - len(tail)
+    body = b"\xff\x7f" + bytes(rng.randrange(256) for _ in range(n_fill)) + inner + tail
+    return F(213, body)
+
+
+def big_cases(rng, k):
+    """maximum-length frames between markers and controller requests"""
+    for i in range(k):
+        frames = [marker(0), big_frame(rng, True), marker(1), F(CD_REQ), big_frame(rng, False), marker(2), F(PV_REQ)]
+        if i % 3 == 2:
+            frames.insert(2, big_frame(rng, True))
+        yield dict(consumers=1 + i % 3, net=i % len(NETS), batches=rebatch(rng, frames, mode=["one", "single", "random"][i % 3]))
+
+
 def random_net(rng):
     def ip():
         return ".".join(str(rng.randrange(256)) for _ in range(4))
@@ -525,8 +554,17 @@ def evaluate(res, cases):
         exp = [" ".join(s.split(" ")[:1] + ["-"] + s.split(" ")[2:]) for s in msnaps[:-1]] + msnaps[-1:]
         got = [show_snap(s) for s in r["snaps"][:-1]] + [obs_final]
         # the drain at the end adds no deliveries; the model's last snapshot is after the last batch
-        if exp != got:
-            k = next((i for i, (a, b) in enumerate(zip(exp, got)) if a != b), min(len(exp), len(got)))
+        # the statement (and the theorems: a permutation) say WHICH frames are delivered, once each, not in which
+        # order frames of different consumers / addresses reach their devices: compare the delivered ids as a multiset
+
+        def canon_order(line):
+            w = line.split(" ")
+            if w[0] != "-":
+                w[0] = ",".join(sorted(w[0].split(","), key=int))
+            return " ".join(w)
+
+        if [canon_order(x) for x in exp] != [canon_order(x) for x in got]:
+            k = next((i for i, (a, b) in enumerate(zip(exp, got)) if canon_order(a) != canon_order(b)), min(len(exp), len(got)))
             res.fail("corr", inp, exp, got, f"pool machine and AsyncProtocol differ at batch {k}", words=r["words"])
         if not r["final"]["shutdown"] and v == "pass":
             res.fail("spec", inp, "shutdown completes", r["extra"], "shutdown() did not complete")
@@ -586,9 +624,11 @@ def run(ctx):
                 "decodable kind cut at truncation points, random payloads, out-of-table ids (schema type >= 17, schedule >= 40, "
                 "31-day-month alert dates, counts beyond the payload), controller requests 64/48 (and from ecoSTER / addresses "
                 "without a device class), other requests, frames the reader rejects; bursts of undecodable frames larger than the "
-                "consumer pool, followed by valid marker frames. distinct = (consumers, network, classified sequence, payloads); "
+                "consumer pool, followed by valid marker frames; maximum-length (1000-byte) frames, decodable and not, carrying a complete small frame near their tail. distinct = (consumers, network, classified sequence, payloads); "
                 "non-trivial = at least one raising frame together with a valid frame or a controller request")
     cases = [parse_case(ln) for _, ln in load_corpus("C09")]
+    cases.extend(big_cases(random.Random(1000), 6))            # maximum-length frames (boundary of the reader's length gate)
+    cases.extend(big_cases(rng, 30 if ctx["tier"] == "quick" else 300))
     if ctx["tier"] == "thorough":
         cases.extend(truncation_cases(rng, "all"))
         for _ in range(15000):
